@@ -34,7 +34,7 @@ def scenarios(rng, n, tier):
             if c < 0.55:
                 scn["ops"].append({"op": "exec", "rel": [rng.randrange(nj), 0], "force": True})
             elif c < 0.85:
-                scn["ops"].append({"op": "mutate", "key": rng.randrange(nj), "what": rng.choice(["kwargs", "tags", "returned_tags", "all"])})
+                scn["ops"].append({"op": "mutate", "key": rng.randrange(nj), "what": rng.choice(["kwargs", "tags", "returned_tags", "all"]), "how": rng.choice(["swap", "clear"])})
             else:
                 scn["ops"].append({"op": "get", "tags": sorted(rng.sample(range(1, 6), rng.randint(1, 2))), "any": rng.random() < 0.5})
         yield scn
